@@ -95,6 +95,8 @@ def run(tier, seed):
             for tg in ([0x30], [0x3f, 0x10], [0x3f, 0x80, 0x10], [0x1f, 0x80, 0x10], [0x1f, 0x10], [0xbf, 0x80, 0x00], [0x3f, 0x80]):
                 for lf in ([0x88] + [0xff] * 8, [0x84, 0xff, 0xff, 0xff, 0xff], [0x80], [20], [0x89] + [0xff] * 9):
                     plans.append({"entry": e, "raw": tg + lf + [0xa0, 3, 2, 1, 2] + [0x41] * 20})
+                    for nz in (13, 200, 201):
+                        plans.append({"entry": e, "raw": tg + lf + [0] * nz})
         for i, p in enumerate(plans):
             p["id"] = "n%d" % i
         plans.append({"id": "selftest", "entry": "challenge", "layer": "all", "faults": [{"op": "set8", "off": 3, "v": 0}]})
